@@ -3,6 +3,7 @@ package main
 import (
 	"bytes"
 	"fmt"
+	"go/build/constraint"
 	"os"
 	"os/exec"
 	"path/filepath"
@@ -15,8 +16,9 @@ import (
 // A scenario returns the list of expectations that the real binary violates.
 
 type e2eEnv struct {
-	dir string
-	bin string
+	extraEnv []string // appended to the environment of the goverter runs
+	dir      string
+	bin      string
 }
 
 func newE2E(repo, dir string) (*e2eEnv, error) {
@@ -45,6 +47,7 @@ func (e *e2eEnv) run(args ...string) (int, string, string) {
 	cmd := exec.Command(e.bin, args...)
 	cmd.Dir = e.dir
 	cmd.Env = append(os.Environ(), "GOFLAGS=-mod=mod", "GOPROXY=off", "GOSUMDB=off", "GOTOOLCHAIN=local")
+	cmd.Env = append(cmd.Env, e.extraEnv...)
 	var so, se bytes.Buffer
 	cmd.Stdout, cmd.Stderr = &so, &se
 	err := cmd.Run()
@@ -168,6 +171,10 @@ func e2eC17(repo, dir string, vals map[string]string) ([]string, error) {
 		"package flt\n\n// goverter:converter\ntype C interface {\n\t// goverter:context zone\n\t// goverter:context actx\n\tConvert(source In, zone Loc) Out\n}\ntype Loc struct{ L string }\ntype In struct{ A int }\ntype Out struct{ A int }\n",
 		"package flt\n\n// goverter:converter\n// goverter:extend e2e/flt/ext:Conv.*\ntype C interface {\n\tConvert(source In) Out\n}\ntype In struct{ A int }\ntype Out struct{ A string }\n",
 		"package flt\n\n// goverter:converter\n// goverter:extend e2e/flt/ext:ConvA\ntype C interface {\n\tConvert(source In) Out\n}\ntype In struct{ A int }\ntype Out struct{ A string }\n",
+		// an output:file line with two values / without a value
+		"package flt\n\n// goverter:converter\n// goverter:output:file ./my out/conv.gen.go\ntype C interface {\n\tConvert(source In) Out\n}\ntype In struct{ A int }\ntype Out struct{ A int }\n",
+		"package flt\n\n// goverter:converter\n// goverter:output:file\ntype C interface {\n\tConvert(source In) Out\n}\ntype In struct{ A int }\ntype Out struct{ A int }\n",
+		"package flt\n\n// goverter:converter\n// goverter:output:package a b\ntype C interface {\n\tConvert(source In) Out\n}\ntype In struct{ A int }\ntype Out struct{ A int }\n",
 	} {
 		e.write("flt/in.go", src)
 		e.write("flt/ext/ext.go", "package ext\n\nfunc ConvA(i int) string { return \"\" }\n\nvar broken Missing\n")
@@ -181,6 +188,20 @@ func e2eC17(repo, dir string, vals map[string]string) ([]string, error) {
 		}
 	}
 	os.RemoveAll(filepath.Join(e.dir, "flt"))
+	// a pattern that names nothing that can be loaded - a directory that does not exist, a package whose files are all
+	// excluded by build constraints - fails the run next to a good package
+	e.write("allexcl/in.go", "//go:build special\n\npackage allexcl\n")
+	for _, pat := range []string{"./doesnotexist", "./allexcl"} {
+		bk := e.tree()
+		code, _, se := e.run("gen", "./good2", pat)
+		if code != 1 || strings.TrimSpace(se) == "" {
+			bad = append(bad, fmt.Sprintf("pattern %s that cannot be loaded: exit %d, want 1 and a diagnostic", pat, code))
+		}
+		if d := sameTree(bk, e.tree()); len(d) > 0 {
+			bad = append(bad, fmt.Sprintf("failing run (pattern %s) changed files: %s", pat, strings.Join(d, ", ")))
+		}
+	}
+	os.RemoveAll(filepath.Join(e.dir, "allexcl"))
 	// a -g line that one of the converters of the run cannot take fails the run, whichever converter it is
 	e.write("gvars/in.go", "package gvars\n\n// goverter:variables\nvar (\n\tConvert func(source In) Out\n)\n\ntype In struct{ A int }\ntype Out struct{ A int }\n")
 	for _, args := range [][]string{{"gen", "-g", "output:format function", "./good2", "./gvars"}, {"gen", "-g", "output:format function", "./gvars", "./good2"}, {"gen", "-g", "output:format function", "./gvars"}} {
@@ -416,6 +437,27 @@ func e2eC16(repo, dir string, vals map[string]string) ([]string, error) {
 		}
 		os.RemoveAll(filepath.Join(e.dir, "tagform"))
 	}
+	// ... and whatever the environment of the process says about tags: a stale same-package output is hidden by the
+	// generation tag also when GOFLAGS carries a tag list of its own
+	{
+		mkv := func(field string) {
+			e.write("envtags/in.go", "package envtags\n\n// goverter:variables\nvar (\n\tConvert func(source In) Out\n)\n\ntype In struct{ "+field+" int }\ntype Out struct{ "+field+" int }\n")
+		}
+		mkv("A")
+		e.extraEnv = []string{"GOFLAGS=-mod=mod -tags=integration"}
+		if code, _, se := e.run("gen", "./envtags"); code != 0 {
+			bad = append(bad, "GOFLAGS with a tag list: first generation fails: "+firstLine(se))
+		} else {
+			mkv("B")
+			code, _, se = e.run("gen", "./envtags")
+			b, _ := os.ReadFile(filepath.Join(e.dir, "envtags/in.gen.go"))
+			if code != 0 || !strings.Contains(string(b), "source.B") {
+				bad = append(bad, "GOFLAGS with a tag list: the stale output blocks regeneration (the generation tag has to reach every load): "+firstLine(se))
+			}
+		}
+		e.extraEnv = nil
+		os.RemoveAll(filepath.Join(e.dir, "envtags"))
+	}
 	// both switched off: no tag for loading, no constraint line
 	e.write("notagsboth/in.go", strings.Replace(e2eGood, "package good", "package notagsboth", 1))
 	code, _, se = e.run("gen", "-build-tags", "", "-output-constraint", "", "./notagsboth")
@@ -436,7 +478,7 @@ func e2eC16(repo, dir string, vals map[string]string) ([]string, error) {
 	}
 	os.RemoveAll(filepath.Join(e.dir, "abs"))
 	// constraints with various first characters (and the one from the counterexample) are emitted verbatim
-	constraints := []string{"linux || !goverter", "go1.18 && !goverter", "unix", "d", "!goverter"}
+	constraints := []string{"linux || !goverter", "go1.18 && !goverter", "unix", "d", "!goverter", "(linux || darwin || windows) && (!goverter)", "(!goverter)", "!(goverter)"}
 	if c := vals["constraint"]; c != "" && isPrintable(c) {
 		constraints = append(constraints, c)
 	}
@@ -444,7 +486,7 @@ func e2eC16(repo, dir string, vals map[string]string) ([]string, error) {
 		code, _, _ = e.run("gen", "-output-constraint", c, "./good")
 		b, _ = os.ReadFile(filepath.Join(e.dir, "good/generated/generated.go"))
 		ls := strings.Split(string(b), "\n")
-		if code != 0 || len(ls) < 2 || ls[1] != "//go:build "+c {
+		if code != 0 || len(ls) < 2 || !sameConstraint(ls[1], "//go:build "+c) {
 			got := ""
 			if len(ls) > 1 {
 				got = ls[1]
@@ -876,6 +918,21 @@ func e2eC15(repo, dir string, vals map[string]string) ([]string, error) {
 		}
 		os.Remove(sub.bin)
 	}
+	// the package clause of a file written into a directory that already holds a package is that package's name -
+	// also when it differs from the directory name and output:package gives a path only (the path of that directory,
+	// or - a slip of the user - the path of another package that happens to be loaded)
+	for i, pkgLine := range []string{"e2e/clause/conv/out", "e2e/clause/lib"} {
+		os.RemoveAll(filepath.Join(e.dir, "clause"))
+		e.write("clause/lib/lib.go", "package helpers\n\nfunc IntToString(i int) string { return \"\" }\n")
+		e.write("clause/conv/out/doc.go", "package outpkg\n\ntype Input struct{ ID int }\ntype Output struct{ ID string }\n")
+		e.write("clause/conv/conv.go", "package conv\n\nimport \"e2e/clause/conv/out\"\n\n// goverter:converter\n// goverter:output:file ./out/gen.go\n// goverter:output:package "+pkgLine+"\n// goverter:extend e2e/clause/lib:IntToString\ntype Converter interface {\n\tConvert(source outpkg.Input) outpkg.Output\n}\n")
+		code, _, se := e.run("gen", "./clause/conv")
+		b, _ := os.ReadFile(filepath.Join(e.dir, "clause/conv/out/gen.go"))
+		if code == 0 && !strings.Contains(string(b), "\npackage outpkg\n") {
+			bad = append(bad, fmt.Sprintf("output into a directory that holds package outpkg (output:package %s, case %d): the file does not say package outpkg: %s", pkgLine, i, firstLine(se)))
+		}
+	}
+	os.RemoveAll(filepath.Join(e.dir, "clause"))
 	return bad, nil
 }
 
@@ -1247,6 +1304,30 @@ func e2eC09(repo, dir string, vals map[string]string) ([]string, error) {
 			if d := sameTree(forms["chdir"], forms[form]); len(d) > 0 {
 				bad = append(bad, "working directory given as "+form+" -cwd instead of chdir changes the outcome: "+strings.Join(d, ", "))
 			}
+		}
+		// ... nor what a failing run reports (the faulty file lies directly in the working directory)
+		diags := map[string]string{}
+		for _, form := range []string{"chdir", "relative", "absolute"} {
+			os.RemoveAll(filepath.Join(sub.dir, "m"))
+			sub.write("m/go.mod", "module cwdmod\n\ngo 1.22\n")
+			sub.write("m/in.go", "package cwdmod\n\n// goverter:converter\ntype C interface {\n\t// goverter:bogus\n\tConvert(source In) Out\n}\ntype In struct{ A int }\ntype Out struct{ A int }\n")
+			var code int
+			var se string
+			switch form {
+			case "chdir":
+				saved := sub.dir
+				sub.dir = filepath.Join(saved, "m")
+				code, _, se = sub.run("gen", ".")
+				sub.dir = saved
+			case "relative":
+				code, _, se = sub.run("gen", "-cwd", "m", ".")
+			default:
+				code, _, se = sub.run("gen", "-cwd", filepath.Join(sub.dir, "m"), ".")
+			}
+			diags[form] = fmt.Sprintf("%d|%s", code, se)
+		}
+		if diags["chdir"] != diags["relative"] || diags["chdir"] != diags["absolute"] {
+			bad = append(bad, "the diagnostic of a failing run depends on how the working directory is given (chdir / relative -cwd / absolute -cwd): "+firstLine(diags["chdir"])+" | "+firstLine(diags["relative"]))
 		}
 		os.Remove(sub.bin)
 	}
@@ -1685,4 +1766,14 @@ func min(a, b int) int {
 		return a
 	}
 	return b
+}
+
+// sameConstraint: two //go:build lines that state the same expression (the formatter drops redundant parentheses)
+func sameConstraint(a, b string) bool {
+	if a == b {
+		return true
+	}
+	ea, erra := constraint.Parse(a)
+	eb, errb := constraint.Parse(b)
+	return erra == nil && errb == nil && ea.String() == eb.String()
 }
